@@ -88,13 +88,13 @@ theorem noTrainer_copied (hf : FreshFor ρ c) (hnt : c.noTrainer c.applyHead c.a
 end Comp
 
 /-- the derived perftrack composition of a well-formed plain composition is well-formed -/
-theorem wfPerf_perfOf {ρ : Nat → Nat} {c : Comp} (hf : FreshFor ρ c) (hwf : c.wfPlain = true)
-    (htail : c.tailClean = true) : (⟨c, c.perfOf ρ⟩ : Case).wfPerf = true := by
+theorem wfPerf_perfOf {ρ : Nat → Nat} {c : Comp} (closed : Bool) (hf : FreshFor ρ c) (hwf : c.wfPlain = true)
+    (htail : c.tailClean = true) : (⟨c, c.perfOf ρ closed⟩ : Case).wfPerf = true := by
   have hwf' := hwf
   simp only [Comp.wfPlain, Bool.and_eq_true] at hwf'
   obtain ⟨⟨⟨⟨⟨⟨htc, hd⟩, hts⟩, _⟩, hada⟩, _⟩, hnta⟩ := hwf'
   simp only [Case.wfPerf, Comp.perfOf]
-  cases hch : c.isChain with
+  cases hch : (closed || c.isChain) with
   | false => simp
   | true =>
     simp only [if_true, Bool.and_eq_true, beq_iff_eq]
